@@ -36,7 +36,7 @@ RULE = ('BFS over interleavings of view reads/writes and structural operations o
 ASSUMPTIONS = [
     'packages: A=(Water, Ethanol, Methanol) and the re-ordered superset A2=(Ethanol, Methanol, Water, Propanol) for the property-package reset; '
     'all chemicals have molar-volume models in s, l and g',
-    'flow alphabet {0, 0.375, 1, 2.5, 3}; T in {298.15, 350} (partner 330/360), P in {101325, 5e5} (partner 2e5); phases l, g, (g,l), (g,l,s)',
+    'flow alphabet {0, 0.375, 1, 2.5, 3}; T in {298.15, 350} (partner 330/360), P in {101325, 5e5} (partner 2e5); phases l, g, (g,l), (g,l,s); a solid single-phase partner in the thorough tier',
     'link_with is only applied between streams of the same class, package and phase tuple (the library does not check the latter two; '
     'linking arrays of different shape is outside the property)',
     'which containers a structural operation shares or copies is NOT judged here (C12/C13); after a structural operation the molar data, '
@@ -196,7 +196,7 @@ class C11(System):
         tmo = fx.tmo()
         if role == 's': T, P, a, b = 298.15, 101325., ('Water', 1.0), ('Ethanol', 2.5)
         else:           T, P, a, b = 330., 2e5, ('Water', 0.375), ('Methanol', 1.0)
-        if kind in ('l', 'g'):
+        if kind in ('l', 'g', 's'):
             return tmo.Stream(None, phase=kind, T=T, P=P, thermo=thermo, **{a[0]: a[1], b[0]: b[1]})
         if kind == 'm':
             return tmo.MultiStream(None, T=T, P=P, phases=('g', 'l'), thermo=thermo, l=[a], g=[b])
@@ -437,7 +437,7 @@ class C11(System):
             # one structural step so that depth 2 applies every unit to a non-initial state
             acts += [('T', 350.0), ('P', 5e5), ('empty',)]
             if multi: acts.append(('to_single', 'l'))
-            else: acts += [('phase', 'g' if s.phase == 'l' else 'l'), ('phases', 'gl')]
+            else: acts += [('phase', 'g' if s.phase == 'l' else 'l'), ('phases', 'gl' if s.phase.lower() in 'gl' else 'gls')]
             return acts
         # ---- history alphabet
         (p0, n0), (p1, n1) = tg
@@ -455,7 +455,7 @@ class C11(System):
             if tuple(s._imol._phases) == ('g', 'l'): acts.append(('phases', 'gls'))
         else:
             acts.append(('phase', 'g' if s.phase != 'g' else 'l'))
-            acts.append(('phases', 'gl'))
+            acts.append(('phases', 'gl' if s.phase.lower() in 'gl' else 'gls'))     # the new phase set must hold the material (C12's precondition)
         if self._linkable(st):
             for fl in (True, False):
                 for ph in (True, False):
@@ -763,7 +763,7 @@ SYSTEMS = [
     # every unit / every write door, applied to every stream kind at depth 1 and after one structural step at depth 2
     C11('c11.units', 'eager', 2, 2, ('l', 'g', 'm'), ('l',), alphabet='units'),
     # histories with all views re-read (and thereby cached) after every action
-    C11('c11.eager', 'eager', 3, 4, ('l', 'g', 'm'), ('l', 'g', 'm', 'm3'),
+    C11('c11.eager', 'eager', 3, 4, ('l', 'g', 'm'), ('l', 'g', 'm', 'm3', 's'),
         quick_pairs=(('l', 'l'), ('l', 'g'), ('g', 'l'), ('m', 'm'), ('m', 'm3'), ('l', 'm3'), ('m', 'l')), tcap_q=120, tcap_t=900),
     # histories in which views are only created / read by explicit read actions (cache-creation order is explored)
     C11('c11.lazy', 'lazy', 3, 4, ('l', 'm'), ('l', 'm', 'm3'), tcap_q=120, tcap_t=900),
